@@ -6,15 +6,16 @@ import (
 	"encoding/json"
 	"fmt"
 	"math"
-	"regexp"
-	"strconv"
 	"os"
 	"path/filepath"
+	"regexp"
 	"sort"
+	"strconv"
 	"strings"
 	"sync"
 	"testing"
 	"time"
+	"unicode"
 
 	"github.com/gogpu/naga"
 	"github.com/gogpu/naga/dxil"
@@ -406,7 +407,7 @@ func genMutation(t *rapid.T) string {
 	n := rapid.IntRange(1, 6).Draw(t, "nmut")
 	for k := 0; k < n && len(toks) > 0; k++ {
 		i := rapid.IntRange(0, len(toks)-1).Draw(t, "mi")
-		switch rapid.IntRange(0, 6).Draw(t, "mk") {
+		switch rapid.IntRange(0, 8).Draw(t, "mk") {
 		case 0: // delete
 			toks = append(toks[:i], toks[i+1:]...)
 		case 1: // duplicate
@@ -429,10 +430,27 @@ func genMutation(t *rapid.T) string {
 			toks[i] = toks[j]
 		case 6: // truncate
 			toks = toks[:i]
+		case 7: // cut or stretch an identifier-like token (vec3 -> vec, mat2x2 -> mat2x, texture_2d -> texture_)
+			tk := toks[i]
+			if len(tk) >= 2 && (tk[0] == '_' || unicode.IsLetter(rune(tk[0]))) {
+				if rapid.IntRange(0, 2).Draw(t, "cut") > 0 {
+					toks[i] = tk[:rapid.IntRange(1, len(tk)-1).Draw(t, "keep")]
+				} else {
+					toks[i] = tk + string("x2_f<"[rapid.IntRange(0, 4).Draw(t, "ext")])
+				}
+			}
+		case 8: // put a type-like stub where a token was: a generic name with or without arguments
+			toks[i] = typeStubs[rapid.IntRange(0, len(typeStubs)-1).Draw(t, "stub")]
 		}
 	}
 	return strings.Join(toks, "")
 }
+
+// typeStubs: spellings around the predeclared generic type names, complete and incomplete.
+var typeStubs = []string{"mat<f32>", "matx<f32>", "mat2<f32>", "mat2x<f32>", "mat2x2<>", "mat9x9<f32>", "vec<f32>", "vec5<f32>", "vec2<>", "vec2<vec2<f32>>",
+	"vec2<f32, f32>", "array<>", "array<i32, >", "array<array<>, 2>", "ptr<>", "ptr<function>", "ptr<function, >", "atomic<>", "atomic<f32>", "atomic<vec2<u32>>",
+	"texture_2d<>", "texture_2d", "texture_<f32>", "texture_storage_2d<>", "texture_storage_2d<rgba8unorm>", "texture_storage_2d<f32, write>", "sampler<f32>",
+	"binding_array<>", "binding_array<f32>", "mat2x2", "vec3", "mat2x2f<f32>", "vec3f<f32>", "bitcast<>", "bitcast<mat2x2<f32>>", "i32<f32>", "f32<>"}
 
 // genBuiltinArity calls a builtin function with a drawn number of arguments drawn from a pool
 // of plausible values (every texture kind, samplers, coordinates, indices, atomics): mostly
@@ -577,6 +595,52 @@ var amplifiers = []struct {
 		fmt.Fprintf(&b, "o = a%d; }\n", n)
 		return b.String()
 	}},
+	{"let-diamond-phony", 24, func(n int) string {
+		// the DAG is only discarded: `_ = aN` makes a backend ask whether the whole expression is pure
+		var b strings.Builder
+		b.WriteString("fn f(x: f32) { let a0 = x + x;\n")
+		for i := 1; i <= n; i++ {
+			fmt.Fprintf(&b, "let a%d = a%d + a%d;\n", i, i-1, i-1)
+		}
+		fmt.Fprintf(&b, "_ = a%d; }\n@compute @workgroup_size(1) fn main() { f(1.0); }\n", n)
+		return b.String()
+	}},
+	{"let-diamond-select", 40, func(n int) string {
+		// the same DAG through select / swizzle / compose / conversion nodes, stored through a dynamic index
+		var b strings.Builder
+		b.WriteString("@group(0) @binding(0) var<storage, read_write> o: array<vec2<f32>, 4>;\n@compute @workgroup_size(1) fn main(@builtin(local_invocation_index) li: u32) { let a0 = o[li];\n")
+		for i := 1; i <= n; i++ {
+			switch i % 3 {
+			case 0:
+				fmt.Fprintf(&b, "let a%d = select(a%d, a%d.yx, a%d.x < 1.0);\n", i, i-1, i-1, i-1)
+			case 1:
+				fmt.Fprintf(&b, "let a%d = vec2<f32>(a%d.x, a%d.y);\n", i, i-1, i-1)
+			default:
+				fmt.Fprintf(&b, "let a%d = vec2<f32>(vec2<i32>(a%d)) * a%d;\n", i, i-1, i-1)
+			}
+		}
+		fmt.Fprintf(&b, "o[u32(a%d.x) %% 4u] = a%d; }\n", n, n)
+		return b.String()
+	}},
+	{"const-diamond-local-override", 22, func(n int) string {
+		// function-scope consts whose initialisers reach an override (not a const-expression: must be refused or handled)
+		var b strings.Builder
+		b.WriteString("override ov: i32 = 1;\n@compute @workgroup_size(1) fn main() { const a0 = ov + ov;\n")
+		for i := 1; i <= n; i++ {
+			fmt.Fprintf(&b, "const a%d = a%d + a%d;\n", i, i-1, i-1)
+		}
+		fmt.Fprintf(&b, "var r = a%d; }\n", n)
+		return b.String()
+	}},
+	{"const-diamond-local", 22, func(n int) string {
+		var b strings.Builder
+		b.WriteString("@group(0) @binding(0) var<storage, read_write> o: i32;\n@compute @workgroup_size(1) fn main() { const a0 = 1 + 0;\n")
+		for i := 1; i <= n; i++ {
+			fmt.Fprintf(&b, "const a%d = a%d ^ a%d;\n", i, i-1, i-1)
+		}
+		fmt.Fprintf(&b, "o = a%d; }\n", n)
+		return b.String()
+	}},
 	{"const-diamond", 26, func(n int) string {
 		var b strings.Builder
 		b.WriteString("const c0 = 1u;\n")
@@ -607,7 +671,9 @@ var amplifiers = []struct {
 	{"binary-chain", 4, func(n int) string { return "fn f() -> i32 { return 1" + strings.Repeat(" + 1", n) + "; }" }},
 	{"long-ident", 1, func(n int) string { return "fn " + strings.Repeat("a", n) + "() { }" }},
 	{"long-digits", 1, func(n int) string { return "const c = " + strings.Repeat("9", n) + ";" }},
-	{"long-float", 1, func(n int) string { return "const c = 1." + strings.Repeat("9", n) + "e" + strings.Repeat("9", n%300+1) + ";" }},
+	{"long-float", 1, func(n int) string {
+		return "const c = 1." + strings.Repeat("9", n) + "e" + strings.Repeat("9", n%300+1) + ";"
+	}},
 	{"comment-nest", 4, func(n int) string { return strings.Repeat("/*", n) + strings.Repeat("*/", n) + " fn f() { }" }},
 	{"comment-open", 2, func(n int) string { return strings.Repeat("/*", n) + " fn f() { }" }},
 	{"many-decls", 24, func(n int) string {
@@ -617,7 +683,9 @@ var amplifiers = []struct {
 		}
 		return b.String()
 	}},
-	{"template-nest", 4, func(n int) string { return "var<private> a: " + strings.Repeat("ptr<", n) + strings.Repeat(">", n) + ";" }},
+	{"template-nest", 4, func(n int) string {
+		return "var<private> a: " + strings.Repeat("ptr<", n) + strings.Repeat(">", n) + ";"
+	}},
 	{"index-chain", 3, func(n int) string {
 		return "fn f(a: array<i32, 4>) -> i32 { return a" + strings.Repeat("[0]", n) + "; }"
 	}},
@@ -858,6 +926,63 @@ func TestPropArityExhaustive(t *testing.T) {
 						ev.Fail("input", in, msg)
 						t.Fatalf("%s\n--- input ---\n%s", msg, src[len(arityPrelude):])
 					}
+				}
+			}
+		}
+	}
+}
+
+// TestPropNoValueExhaustive puts every call that yields no value (a user function without result, the
+// barriers, atomicStore, textureStore) into every position where WGSL requires a value: a finite space
+// swept completely on every run.  Whether the front end refuses the program or not, no stage may crash,
+// hang or exhaust memory on it (the type of such an "expression" is undefined, which is where a
+// compiler that hands out a dummy handle gets into trouble).
+func TestPropNoValueExhaustive(t *testing.T) {
+	ev.Rule("exhaustive: 8 calls without result x 38 value positions (operands of every operator class, conditions, selectors, initialisers, indices, arguments, constructor and conversion operands, return values) x {entry point, helper}; same crash / hang / memory oracle")
+	shard, shards := ev.ShardIndex(), 1
+	if n, err := strconv.Atoi(os.Getenv("VERIF_SHARDS")); err == nil && n > 0 {
+		shards = n
+	}
+	const prelude = `var<workgroup> wa: atomic<u32>;
+@group(0) @binding(0) var<storage, read_write> o: array<u32, 8>;
+@group(0) @binding(1) var ts: texture_storage_2d<rgba8unorm, write>;
+fn v() { }
+fn vo() { o[7] = 1u; }
+fn takes(a: u32) -> u32 { return a; }
+`
+	producers := []string{"v()", "vo()", "workgroupBarrier()", "storageBarrier()", "textureBarrier()", "atomicStore(&wa, 1u)",
+		"textureStore(ts, vec2<i32>(0), vec4<f32>(0.0))", "v( )"}
+	positions := []string{
+		"if @ { }", "if !@ { }", "switch @ { default { } }", "loop { continuing { break if @; } }", "while @ { break; }",
+		"for (var i = @; false; ) { }", "for (; @; ) { break; }", "let r = -@;", "let r = !@;", "let r = ~@;", "let r = *@;", "let r = &@;",
+		"let r = @ + 1;", "let r = 1u << @;", "let r = @ == @;", "let r = true && @;", "let r = select(@, @, @);", "let r = select(1, 2, @);",
+		"let r = bitcast<f32>(@);", "let r = f32(@);", "let r = vec2<f32>(@);", "let r = vec2(@, 1.0);", "let r = array<u32, 2>(@, 1u);",
+		"let r = max(@, 1);", "let r = abs(@);", "let r = takes(@);", "let r = o[@];", "o[@] = 1u;", "o[0] = @;", "o[0] += @;",
+		"let r = @.x;", "let r = @[0];", "let r = @;", "var r = @;", "var r: u32 = @;", "const r = @;", "_ = @;", "let r = atomicAdd(&wa, @);",
+	}
+	idx := 0
+	for _, prod := range producers {
+		for _, pos := range positions {
+			for helper := 0; helper < 2; helper++ {
+				idx++
+				if idx%shards != shard {
+					continue
+				}
+				body := strings.ReplaceAll(pos, "@", prod)
+				src := prelude + "@compute @workgroup_size(1) fn main() {\n  " + body + "\n}\n"
+				if helper == 1 {
+					src = prelude + "fn h() -> u32 {\n  " + body + "\n  return " + prod + ";\n}\n@compute @workgroup_size(1) fn main() { o[1] = h(); }\n"
+				}
+				in := &Input{API: "all", Opts: "default", Kind: "no-value-exhaustive", Src: src}
+				ok, msg, rep := verdict(in)
+				ev.Eval(ev.HashS(in.Src, in.API, in.Opts), true)
+				ev.Class("family:no-value-exhaustive")
+				if rep.Stage != "" {
+					ev.Class("no-value-stage:" + rep.Stage)
+				}
+				if !ok {
+					ev.Fail("input", in, msg)
+					t.Fatalf("%s\n--- input ---\n%s", msg, in.Src)
 				}
 			}
 		}
